@@ -688,7 +688,12 @@ def make_simplified_union(
                         erase_extra = True
                         break
             if erase_extra:
-                fallback.extra_attrs = None
+                if isinstance(result, Instance):
+                    # The result may be one of the items passed in, don't modify it in place.
+                    result = result.copy_modified()
+                    result.extra_attrs = None
+                else:
+                    fallback.extra_attrs = None
 
     return result
 
